@@ -428,6 +428,8 @@ type multiPkgs struct {
 	twinA  int
 	twinB  int
 	nmains int
+	// wrappers: packages 2 and 3 are declaration-only importers of 0, 1.
+	wrappers bool
 }
 
 // dropTwin removes the second twin from an import list that has both.
@@ -470,6 +472,16 @@ func drawMultiPackages(t *rapid.T) *multiPkgs {
 		rapid.SampledFrom([]int{8, 16, 20, 32, 64, 13, 16, 40}).Draw(t, "bits"))
 	ty := m.ty
 	npk := rapid.IntRange(2, 5).Draw(t, "npkg")
+	// Declaration-only wrappers: packages 2 and 3 have no package-level
+	// variables and import package 0 and 1 (which have some); the measured
+	// main imports the two wrappers only, so the variable packages are
+	// reached through them.
+	wrappers := rapid.IntRange(0, 5).Draw(t, "wrappers") == 0
+	if wrappers {
+		npk = 4
+		m.wrappers = true
+		m.tags["declaration-only-wrappers"] = true
+	}
 	names := rapid.Permutation(pkgNames).Draw(t, "names")[:npk]
 	collide := rapid.Bool().Draw(t, "collide") // same variable names in all packages
 	tags := m.tags
@@ -480,7 +492,7 @@ func drawMultiPackages(t *rapid.T) *multiPkgs {
 	// Same-named packages: one time in four two packages share their name
 	// and live in different directories; no importer sees both (the package
 	// table of a compilation is keyed by the local name).
-	if npk >= 3 && rapid.IntRange(0, 3).Draw(t, "twins") == 0 {
+	if npk >= 3 && !wrappers && rapid.IntRange(0, 3).Draw(t, "twins") == 0 {
 		ab := rapid.Permutation(seq(npk)).Draw(t, "twinpair")[:2]
 		sortInts(ab)
 		m.twinA, m.twinB = ab[0], ab[1]
@@ -537,7 +549,10 @@ func drawMultiPackages(t *rapid.T) *multiPkgs {
 		// A third of the packages that can do so import at least two
 		// earlier ones (a nested import map with several entries); the
 		// others import each earlier package with probability 1/4.
-		if i >= 2 && rapid.IntRange(0, 2).Draw(t, "hub") == 0 {
+		wrap := wrappers && i >= 2
+		if wrap {
+			p.imports = []int{i - 2}
+		} else if i >= 2 && rapid.IntRange(0, 2).Draw(t, "hub") == 0 {
 			n := rapid.IntRange(2, i).Draw(t, "nhubdeps")
 			p.imports = append(p.imports, rapid.Permutation(seq(i)).Draw(t, "hubdeps")[:n]...)
 			sortInts(p.imports)
@@ -602,6 +617,9 @@ func drawMultiPackages(t *rapid.T) *multiPkgs {
 		if i < 2 && nvars == 0 {
 			nvars = 1
 		}
+		if wrap {
+			nvars = 0
+		}
 		for v := 0; v < nvars; v++ {
 			name := fmt.Sprintf("%sg%d", prefix, v)
 			switch rapid.IntRange(0, 2).Draw(t, "varform") {
@@ -623,7 +641,7 @@ func drawMultiPackages(t *rapid.T) *multiPkgs {
 		// Compound variables and initialisers computed from them: these are
 		// not folded, i.e. the package initialiser contributes instructions
 		// and gates.
-		if rapid.IntRange(0, 2).Draw(t, "compound") > 0 {
+		if !wrap && rapid.IntRange(0, 2).Draw(t, "compound") > 0 {
 			tab := prefix + "tab"
 			fmt.Fprintf(&vars, "var %s = [4]%s{%s, %s, %s, %s}\n", tab, ty.name,
 				g.lit(), g.lit(), g.lit(), g.lit())
@@ -636,7 +654,7 @@ func drawMultiPackages(t *rapid.T) *multiPkgs {
 				p.vars = append(p.vars, name)
 			}
 		}
-		if tkind == 0 && rapid.Bool().Draw(t, "recvar") {
+		if !wrap && tkind == 0 && rapid.Bool().Draw(t, "recvar") {
 			rec := prefix + "rec"
 			fmt.Fprintf(&vars, "var %s = Rec{p: %s, q: %s}\n", rec, g.lit(), g.lit())
 			// (Fields of package-level structs cannot be read inside
@@ -649,7 +667,7 @@ func drawMultiPackages(t *rapid.T) *multiPkgs {
 				fmt.Fprintf(&vars, "var %s %s = %s.p + %s.q\n", name, ty.name, rec, rec)
 			}
 		}
-		if len(p.imports) > 0 && rapid.IntRange(0, 2).Draw(t, "callinit") == 0 {
+		if !wrap && len(p.imports) > 0 && rapid.IntRange(0, 2).Draw(t, "callinit") == 0 {
 			tags["init-calls-import"] = true
 			name := prefix + "d2"
 			dep := pkgs[rapid.SampledFrom(p.imports).Draw(t, "initdep")]
@@ -706,6 +724,9 @@ func drawMultiMain(t *rapid.T, m *multiPkgs) string {
 		nimp = 2
 	}
 	order = m.dropTwin(order[:nimp])
+	if m.wrappers && m.nmains == 0 {
+		order = rapid.Permutation([]int{2, 3}).Draw(t, "wraporder")
+	}
 	if m.nmains == 0 && sharedBase(pkgs, order) {
 		m.tags["main-imports-share-last-path-component"] = true
 	}
